@@ -68,12 +68,23 @@ func fileCases(c *lib.Ctx) []fileCase {
 			}
 		}
 	}
-	// every name of one unit, as a file, a directory and an executable
+	// every name of one unit, as a file, a directory and an executable (quick tier: a seeded 40% of them)
 	for _, u := range nameUnits {
 		for kind := 0; kind < 3; kind++ {
 			one([]string{u}, kind)
 		}
 	}
+	if c.Quick() {
+		kept := out[:0]
+		for _, fc := range out {
+			if rng.Intn(5) < 2 {
+				kept = append(kept, fc)
+			}
+		}
+		out = kept
+	}
+	// directed probe of the known finding "replace range after the cursor": always present
+	out = append(out, fileCase{Entries: entriesJSON([]fsEntry{{name: "a", dir: true}}), DirPart: "", Prefix: []int{}, Style: "none", Tmpl: 1})
 	n1 := len(out)
 	// names of two units: all of them in the thorough tier, a seeded sample in the quick tier
 	var two []fileCase
@@ -87,8 +98,8 @@ func fileCases(c *lib.Ctx) []fileCase {
 	two, out = out, save
 	if c.Quick() {
 		rng.Shuffle(len(two), func(i, j int) { two[i], two[j] = two[j], two[i] })
-		if len(two) > 2500 {
-			two = two[:2500]
+		if len(two) > 1000 {
+			two = two[:1000]
 		}
 	}
 	out = append(out, two...)
@@ -101,7 +112,7 @@ func fileCases(c *lib.Ctx) []fileCase {
 		}
 		return s
 	}
-	nMulti := c.Pick(400, 6000)
+	nMulti := c.Pick(300, 6000)
 	for i := 0; i < nMulti; i++ {
 		var es []fsEntry
 		seen := map[string]bool{}
